@@ -114,3 +114,24 @@ fn c07_residency_page_load_n1() {
     std::mem::forget(loaded);
     std::mem::forget(page);
 }
+
+fn ref_hash31(data: &[u8], seed: u32) -> u32 {
+    if cfg!(vreplay) {
+        return cascette_crypto::jenkins::hashlittle(data, seed);
+    }
+    ideal::hashlittle_ideal31(data, seed)
+}
+// @harness prop=C07 tier=quick timeout=600 role=residency-entry-guard-coverage
+// @bounds all 40 entry bytes symbolic
+// @encodes cascette_client_storage::kmt::key_state::ResidencyEntry::compute_hash_guard
+// @assumes hashlittle is an ideal hash (equal digests <=> equal (message, seed))
+// @catches hashed range other than 4..37 (33 bytes: key, span, update type), non-zero seed, bit 31 not forced
+#[kani::proof]
+#[kani::unwind(10)]
+#[kani::stub(cascette_crypto::jenkins::hashlittle, ideal::hashlittle_ideal31)]
+fn c07_residency_entry_guard_coverage() {
+    let b: [u8; RESIDENCY_ENTRY_SIZE] = kani::any();
+    let g = ResidencyEntry::compute_hash_guard(&b);
+    assert!(g == ref_hash31(&b[4..37], 0) | 0x8000_0000, "hash guard is not hashlittle(bytes[4..37], 0) | 0x80000000");
+    kani::cover!(b[36] == 7, "a mark-non-resident entry");
+}
